@@ -389,7 +389,7 @@ class Histogram1D(ObjectWithBinning, HistogramBase):
             bin_map = self._binning.force_bin_existence(value)
             self._reshape_data(self._binning.bin_count, bin_map)
 
-        ixbin = self.find_bin(value)
+        ixbin = self.find_bin(value, **kwargs)
         if ixbin is None:
             if self.keep_missed:
                 self.overflow = np.nan
